@@ -1015,10 +1015,8 @@ class BaseOdeModel(object):
             self._eventList.append(event)
             self._hasNewTransition.trip()
         elif isinstance(event, Transition):             # Convert single transition into event
-            rate=event.equation
-            event._equation=None
-            derived_event=Event(rate=rate,
-                                transition_list=[event])
+            # the Event takes its rate from the equation of its only member; the caller's object is left as it is
+            derived_event=Event(transition_list=[event])
             self._eventList.append(derived_event)
             self._hasNewTransition.trip()
         else:
